@@ -126,7 +126,8 @@ impl Scenario for C08 {
             }
             7 | 8 => {
                 spec.variant = "from_seed".into();
-                spec.seed = Some(SeedSpec::Bytes(rng.bytes(n)));
+                // dense and structured seeds (all-ones, equal words, cancelling words, ...)
+                spec.seed = Some(SeedSpec::Bytes(gen_seed_bytes(rng, n)));
             }
             9..=11 => {
                 spec.variant = "seed_from_u64".into();
